@@ -1,0 +1,33 @@
+//go:build verif
+
+// Contracts for package oned, read by the govc verification-condition generator in /verif.
+// Comments only.
+
+package oned
+
+//@ spec func sum(a []int, n int) int = n <= 0 ? 0 : sum(a, n-1) + a[n-1]
+//@ spec func absdev(c []int, p []int, u real, n int) real = n <= 0 ? 0.0 : absdev(c, p, u, n-1) + abs(real(c[n-1]) - real(p[n-1])*u)
+//@ spec func withinVar(c []int, p []int, u real, m real, n int) bool = forall y int :: 0 <= y && y < n ==> abs(real(c[y]) - real(p[y])*u) <= m
+
+//@ func PatternMatchVariance(counters []int, pattern []int, maxIndividualVariance float64) (r float64)
+//@   property C20
+//@   requires len(counters) >= 1 && len(pattern) >= len(counters) && len(counters) <= 1<<20
+//@   requires forall i int :: 0 <= i && i < len(counters) ==> 0 <= counters[i] && counters[i] < 1<<30
+//@   requires forall i int :: 0 <= i && i < len(counters) ==> 1 <= pattern[i] && pattern[i] < 1<<30
+//@   requires maxIndividualVariance >= 0.0 && maxIndividualVariance < 1000000.0
+//@   let n = len(counters)
+//@   let T = sum(counters, n)
+//@   let P = sum(pattern, n)
+//@   let u = real(T)/real(P)
+//@   ensures T < P ==> isPosInf(r)
+//@   ensures T >= P && !withinVar(counters, pattern, u, maxIndividualVariance*u, n) ==> isPosInf(r)
+//@   ensures T >= P && withinVar(counters, pattern, u, maxIndividualVariance*u, n) ==> r == absdev(counters, pattern, u, n)/real(T)
+//@   modifies nothing
+//@   loop 0: invariant 0 <= i && i <= n && numCounters == n && total == sum(counters, i) && patternLength == sum(pattern, i)
+//@   loop 0: invariant 0 <= total && total <= i*(1<<30) && i <= patternLength && patternLength <= i*(1<<30)
+//@   loop 0: decreases n - i
+//@   loop 1: invariant 0 <= x && x <= n && numCounters == n && total == T && patternLength == P && P >= n
+//@   loop 1: invariant unitBarWidth == u && maxIndividualVariance == old(maxIndividualVariance)*u
+//@   loop 1: invariant totalVariance == absdev(counters, pattern, u, x)
+//@   loop 1: invariant withinVar(counters, pattern, u, maxIndividualVariance, x)
+//@   loop 1: decreases n - x
